@@ -140,7 +140,8 @@ def main():
             "add_only": True,
         },
         "engines": [
-            {"name": "rapid", "path": "/verif/props", "serves_properties": sorted(CHECKS), "kind_free_text": "property-based testing with pgregory.net/rapid v1.3.0 (generators, shrinking); thorough tiers add Go native coverage-guided fuzzing for byte-level targets"},
+            {"name": "rapid", "path": "/verif/props", "serves_properties": sorted(CHECKS), "kind_free_text": "property-based testing with pgregory.net/rapid v1.3.0 (generators, shrinking); every quick and thorough command is decided by it"},
+            {"name": "go-native-fuzz", "path": "/verif/props/unit", "serves_properties": ["C14", "C16"], "kind_free_text": "go test -fuzz (coverage-guided, 16 workers, 5 minutes per target) in the thorough tier only: FuzzC14Config (configuration bytes) and FuzzC16Text (comment text); the semantic oracle sits inside the target, a failing input is written as an ordinary replay file"},
         ],
         "checks": checks,
         "not_applicable": na,
